@@ -54,14 +54,25 @@ func (hw *histWorld) restore(m map[string]string) {
 	}
 }
 
+// nowReadings: every reading of the simulated clock the process took, in global order, whichever
+// goroutine took it (a restructured repeat loop may run the tick callback on a helper goroutine).
 func nowReadings(res *ProcResult) []time.Time {
-	var out []time.Time
+	type rd struct {
+		seq int
+		t   time.Time
+	}
+	var rds []rd
 	for _, e := range res.Events {
-		if e.G == 0 && strings.HasPrefix(e.What, "now ") {
+		if strings.HasPrefix(e.What, "now ") {
 			if t, err := time.Parse("2006-01-02T15:04:05Z07:00", strings.TrimPrefix(e.What, "now ")); err == nil {
-				out = append(out, t)
+				rds = append(rds, rd{e.Seq, t})
 			}
 		}
+	}
+	sort.SliceStable(rds, func(i, j int) bool { return rds[i].seq < rds[j].seq })
+	out := make([]time.Time, len(rds))
+	for i := range rds {
+		out[i] = rds[i].t
 	}
 	return out
 }
